@@ -82,6 +82,7 @@ class Acc(object):
         self.buckets = {}                   # (sig, finding or None) -> {"count", "examples"}
         self.caps = []
         self.extra = {}
+        self.unit_index = None              # index of the work unit being run (recorded with every violation example)
 
     # -- counting -------------------------------------------------------------------------------
     def ev(self, k=1):
@@ -130,7 +131,7 @@ class Acc(object):
         b = self.buckets.setdefault((sig, name), {"count": 0, "examples": []})
         b["count"] += 1
         if len(b["examples"]) < MAX_EXAMPLES:
-            b["examples"].append({"case": case, "observed": observed, "msg": msg})
+            b["examples"].append({"case": case, "observed": observed, "msg": msg, "unit_index": self.unit_index})
 
     def merge(self, other):
         self.n.update(other.n)
@@ -214,8 +215,10 @@ _CHECK = None
 _KNOWN = None
 
 
-def _worker(unit):
+def _worker(iu):
+    index, unit = iu
     acc = Acc(_CHECK.ID, _KNOWN)
+    acc.unit_index = index
     try:
         _CHECK.run_unit(unit, acc)
     except Exception:
@@ -230,12 +233,12 @@ def run_units(check, units, procs):
     _KNOWN = known_for(check)
     total = Acc(check.ID)
     if procs <= 1 or len(units) <= 1:
-        for u in units:
-            total.merge(_worker(u))
+        for iu in enumerate(units):
+            total.merge(_worker(iu))
         return total
     ctx = multiprocessing.get_context("fork")
     with ctx.Pool(min(procs, len(units))) as pool:
-        for acc in pool.imap_unordered(_worker, units, chunksize=1):
+        for acc in pool.imap_unordered(_worker, list(enumerate(units)), chunksize=1):
             total.merge(acc)
     return total
 
@@ -244,12 +247,16 @@ def run_units(check, units, procs):
 # replay
 # ------------------------------------------------------------------------------------------------
 
-def write_replay(pid, sig, example, tier, seed):
+def write_replay(pid, sig, example, tier, seed, history_unit=None):
     d = os.path.join(OUT, "replays", pid)
     os.makedirs(d, exist_ok=True)
     body = {"property_id": pid, "signature": sig, "case": example["case"],
             "observed": example["observed"], "message": example["msg"], "tier": tier, "seed": seed,
             "how_to_replay": "cd /verif && ./check %s --replay <this file>" % pid}
+    if history_unit is not None:
+        # the outcome of this case depends on what the process did before it: the replay re-executes the work unit it belongs
+        # to from its start (a deterministic operation sequence), in a fresh interpreter, up to and including this case
+        body["history_unit"] = {"index": history_unit, "tier": tier, "seed": seed}
     digest = "%016x" % h64(json.dumps([sig, example["case"]], sort_keys=True))
     path = os.path.join(d, "%s.json" % digest)
     with open(path, "w") as f:
@@ -270,11 +277,45 @@ def replay_in_fresh_process(pid, path, timeout=600):
     raise RuntimeError("replay produced no result (exit %s): %s %s" % (p.returncode, p.stdout[-2000:], p.stderr[-2000:]))
 
 
+def first_example_of_unit(check, index, tier, seed, sig, case=None):
+    """Runs ONE work unit from its start in this (fresh) process and returns its first unknown violation example with
+    signature `sig` (the one for `case` if given), or None."""
+    bind_repo()
+    units = check.units(tier, seed)
+    acc = Acc(check.ID, known_for(check))
+    acc.unit_index = index
+    check.run_unit(units[index], acc)
+    b = acc.buckets.get((sig, None))
+    if not b:
+        return None
+    for e in b["examples"]:
+        if case is None or e["case"] == case:
+            return e
+    return None
+
+
+def unit_replay_in_fresh_process(pid, index, tier, seed, sig, timeout=3600):
+    env = dict(os.environ)
+    env.update({"PYTHONDONTWRITEBYTECODE": "1", "PYTHONUTF8": "1", "VERIF_SEED": str(seed)})
+    p = subprocess.run([sys.executable, "-m", "mc.run", pid, "--tier", tier, "--replay-unit", "%d" % index, "--sig", sig],
+                       cwd=VERIF, env=env, stdout=subprocess.PIPE, stderr=subprocess.PIPE,
+                       timeout=timeout, universal_newlines=True)
+    for line in reversed(p.stdout.splitlines()):
+        if line.startswith("UNIT-REPLAY-RESULT "):
+            return json.loads(line[len("UNIT-REPLAY-RESULT "):])
+    raise RuntimeError("unit replay produced no result (exit %s): %s %s" % (p.returncode, p.stdout[-2000:], p.stderr[-2000:]))
+
+
 def do_replay(check, path, as_json=False):
     bind_repo()
     with open(path) as f:
         body = json.load(f)
-    observed = jsonable(check.replay(body["case"]))
+    if body.get("history_unit"):
+        hu = body["history_unit"]
+        ex = first_example_of_unit(check, hu["index"], hu["tier"], hu["seed"], body["signature"], body["case"])
+        observed = ex["observed"] if ex else {"not_violated_in_this_run": True}
+    else:
+        observed = jsonable(check.replay(body["case"]))
     same = (observed == body.get("observed"))
     if as_json:
         print("REPLAY-RESULT " + json.dumps({"observed": observed, "same_as_recorded": same}, sort_keys=True))
@@ -365,6 +406,8 @@ def main(argv=None):
     ap.add_argument("--tier", default=None, choices=["quick", "thorough"])
     ap.add_argument("--replay", default=None)
     ap.add_argument("--json", action="store_true")
+    ap.add_argument("--replay-unit", type=int, default=None)
+    ap.add_argument("--sig", default=None)
     ap.add_argument("--procs", type=int, default=None)
     args = ap.parse_args(argv)
 
@@ -379,6 +422,10 @@ def main(argv=None):
 
     if args.replay:
         return do_replay(check, args.replay, as_json=args.json)
+    if args.replay_unit is not None:
+        ex = first_example_of_unit(check, args.replay_unit, tier, seed, args.sig)
+        print("UNIT-REPLAY-RESULT " + json.dumps(ex, sort_keys=True))
+        return 0
 
     bind_repo()
     procs = args.procs or int(os.environ.get("VERIF_PROCS", "0")) or (16 if tier == "thorough" else 8)
@@ -432,6 +479,26 @@ def main(argv=None):
             print("VIOLATION property=%s replay=%s" % (check.ID, path))
             confirmed = True
             continue
+        if not (r1["observed"] == r2["observed"] == ex["observed"]) and ex.get("unit_index") is not None:
+            # The single case, alone in a fresh interpreter, behaves differently: its outcome depends on what the process did
+            # before.  Re-execute the whole work unit (a fixed operation sequence) from its start in two fresh interpreters: if
+            # both runs report the same first violation of this kind, the dependence on earlier calls is deterministic and is
+            # the library's (every case builds fresh objects) - a violation that needs a history, not a flaky harness.
+            try:
+                u1 = unit_replay_in_fresh_process(check.ID, ex["unit_index"], tier, seed, sig)
+                u2 = unit_replay_in_fresh_process(check.ID, ex["unit_index"], tier, seed, sig)
+            except Exception as exc:
+                u1 = u2 = None
+                print("HARNESS ERROR in %s: unit replay failed: %s" % (check.ID, exc))
+            if u1 is not None and u1 == u2:
+                path = write_replay(check.ID, sig, u1, tier, seed, history_unit=ex["unit_index"])
+                print("  [%s] %d instance(s); first: %s" % (sig, b["count"], u1["msg"][:600]))
+                print("  (needs a history: alone in a fresh interpreter this case gives %s; the violation appears when the calls "
+                      "of work unit #%d that precede it have run in the same process - reproduced identically in two fresh "
+                      "interpreters)" % (json.dumps(r1["observed"])[:200], ex["unit_index"]))
+                print("VIOLATION property=%s replay=%s" % (check.ID, path))
+                confirmed = True
+                continue
         if not (r1["observed"] == r2["observed"] == ex["observed"]):
             print("NONDETERMINISM in %s: replay of %s differs (explorer=%s, run1=%s, run2=%s)"
                   % (check.ID, path, json.dumps(ex["observed"])[:300], json.dumps(r1["observed"])[:300],
